@@ -724,9 +724,12 @@ func c09Eval(e *vEnv, c c09Case) (v c09Verdict, err error) {
 				}
 				continue
 			}
-			if i < n && j < n && run.Start[j] >= 0 && run.End[i] <= run.Start[j] {
-				before = append(before, [2]int{x, y}) // real-time order
-			}
+			// No real-time constraint between different actors: the property asks for SOME serial
+			// order (serialisability), and ingest is two-phase by design (track, probe for seconds,
+			// validate), so a duplicate delivery can complete - as a duplicate - before the first
+			// delivery has been validated. What a handler may see and when is asserted separately
+			// (invariant I2).
+			_ = n
 		}
 	}
 	want := run.Obs.String()
